@@ -117,12 +117,17 @@ class Ref:
 
     # -- paths -------------------------------------------------------------
     def simple_paths(self, v, cap=None):
-        key = v
-        if key in self._paths:
-            p = self._paths[key]
-            if p is None or (cap is not None and len(p) > cap):
+        """All simple paths from v (the trivial one included), in DFS order;
+        raises TooManyPaths when there are more than `cap`."""
+        hit = self._paths.get(v)
+        if hit is not None:
+            paths, tried = hit
+            if paths is not None:
+                if cap is not None and len(paths) > cap:
+                    raise TooManyPaths()
+                return paths
+            if cap is not None and cap <= tried:
                 raise TooManyPaths()
-            return p
         res = []
         path = [v]
         on = [False] * self.n
@@ -142,9 +147,9 @@ class Ref:
         try:
             go()
         except TooManyPaths:
-            self._paths[key] = None
+            self._paths[v] = (None, cap)
             raise
-        self._paths[key] = res
+        self._paths[v] = (res, cap)
         return res
 
     def maximal_paths(self, v, cap=None):
